@@ -245,7 +245,7 @@ func (m *c11Machine) syncCatalog() {
 
 func (m *c11Machine) create() {
 	m.seq++
-	m.index += 10
+	m.index += uint64(1 + m.seq%3)
 	full := len(m.b.Snaps) == 0 || rapid.IntRange(0, 3).Draw(m.rt, "full") == 0
 	batch := []string{fmt.Sprintf(`INSERT INTO t(a) VALUES('%s')`, strings.Repeat("x", 20+m.seq%50)), fmt.Sprintf(`INSERT INTO vlog(n, what) VALUES(%d, 'c11')`, m.seq)}
 	if err := m.b.Exec(batch...); err != nil {
@@ -552,6 +552,7 @@ func TestVerif_C11_Lockstep(t *testing.T) {
 			rt.Fatalf("harness: %v", err)
 		}
 		m := &c11Machine{rt: rt, rec: rec, b: b, dumps: map[string]string{}, checkedRef: map[string]bool{}}
+		m.index = uint64(rapid.SampledFrom([]int{0, 6, 96, 995}).Draw(rt, "index0")) // chains cross 9->10, 99->100 ...
 		defer func() {
 			for _, s := range m.streams {
 				s.rc.Close()
